@@ -30,14 +30,16 @@ open RTV.Py RTV.Span RTV.DtExtract
 /-- which repairs the working tree contains (probed by the harness on fixed inputs): `yearPeriodEnd` —
 `match_year_period` builds `Token(start, end)` instead of `Token(start, start - length)`; `centuryOffset` —
 `match_ordinal_number_with_century_suffix` strips the text behind the ordinal on the LEFT and adds the match end
-instead of stripping on the right and adding `text.index(match.group())`. -/
+instead of stripping on the right and adding `text.index(match.group())`; `dtpDurShift` — the date-time period
+`match_duration` adds the number of stripped leading blanks back to the tokens it computed on `source.strip()`. -/
 structure V2 where
   yearPeriodEnd : Bool
   centuryOffset : Bool
+  dtpDurShift : Bool
 deriving DecidableEq, Repr, Inhabited
 
-def V2.current : V2 := ⟨false, false⟩
-def V2.repaired : V2 := ⟨true, true⟩
+def V2.current : V2 := ⟨false, false, false⟩
+def V2.repaired : V2 := ⟨true, true, true⟩
 
 /-- stable insertion sort by `start` (`sorted(…, key=lambda x: x.start)`). -/
 def insertByStart {α : Type} (key : α → Int) (x : α) : List α → List α
@@ -255,6 +257,12 @@ def dtpMatchDuration : List DtpDurFact → List Tok
     else if (dtpWithin f).start ≥ 0 then [dtpWithin f]
     else if dtpDurIndex f ≥ 0 then dtpDurPrefix f (dtpDurIndex f) ++ dtpMatchDuration rest
     else dtpDurSuffix f ++ dtpMatchDuration rest
+
+/-- `match_duration` as its caller sees it: `lead` = the number of leading blanks `source.strip()` removed. The current
+tree hands out the stripped-text offsets unchanged, the repaired tree (dtp-duration-leading-blank.diff) moves them
+right by `lead`. -/
+def dtpMatchDurationV (v : V2) (lead : Int) (fs : List DtpDurFact) : List Tok :=
+  if v.dtpDurShift then (dtpMatchDuration fs).map fun t => ⟨t.start + lead, t.stop + lead⟩ else dtpMatchDuration fs
 
 /-- what `match_time_of_day` sees for one date result. `m1` = `period_time_of_day_with_date_regex.search(after_str)`
 with its `timeOfDay` group (`todS`, `todLen`), `blank1` = nothing but blanks in front of it, `pause1` = the text in
